@@ -89,7 +89,7 @@ for n in ZK:
         if fname in ('IsValid', 'challenge') or (recvtype and recvtype != 'Proof'):
             out.append('//@   inline')
         if fname == 'Verify' and recvtype == 'Proof':
-            out.append('//@   modifies hstate(hash)')
+            out.append('//@   modifies hstate(hash), wlog(hash.h)')
         if has_empty and recvtype == 'Proof':
             req.append('(p != nil ==> shaped(p))')
         cov = []
